@@ -28,8 +28,8 @@ Starts == { i \in 1..NL : Lines[i].k = 0 }
 (* observation record of a logged line (the launch extras ic, n are not part of obs) *)
 ObsOf(r) == [k |-> r.k, t |-> r.t, mode |-> r.mode, e |-> r.e, ex |-> r.ex, ey |-> r.ey, ez |-> r.ez, sp |-> r.sp,
              tilt |-> r.tilt, yaw |-> r.yaw, rate |-> r.rate, m |-> r.m, lim |-> r.lim, ri |-> r.ri,
-             imax |-> r.imax, zi |-> r.zi, zmax |-> r.zmax, nan |-> r.nan]
-ICOf(r)  == [kind |-> "ic", mode |-> r.ic.mode, q |-> r.ic.q, yaw |-> r.ic.yaw, q0 |-> r.ic.q0, off |-> r.ic.off, vel |-> r.ic.vel, rate |-> r.ic.rate]
+             imax |-> r.imax, zi |-> r.zi, zmax |-> r.zmax, alt |-> r.alt, nan |-> r.nan]
+ICOf(r)  == [kind |-> "ic", mode |-> r.ic.mode, q |-> r.ic.q, yaw |-> r.ic.yaw, q0 |-> r.ic.q0, spi |-> r.ic.spi, off |-> r.ic.off, vel |-> r.ic.vel, rate |-> r.ic.rate]
 
 TraceInit == \E s \in Starts :
                 /\ l = s /\ tid = Lines[s].tid
